@@ -111,6 +111,31 @@ func shardC10(c *Ctx, shard, nshards int) {
 			run(c10Job{fmt.Sprintf("Union3D[%d different operands]", k), nil, sdf.Union3D(ops...)}, false)
 		}
 	}
+	// shared sub-expressions: one cached profile object used twice in a model, once directly and once through a second
+	// Cache2D around it (a helper that caches whatever it is given)
+	for i := 0; i < c.Pick(9, 90); i++ {
+		if !mine() {
+			continue
+		}
+		r := c.Rng("dag", i)
+		scale := r.LogR(0.1, 20)
+		leaf := leaf2(r, scale)
+		a := sdf.Cache2D(leaf.s2)
+		b := sdf.Cache2D(a)
+		mv := sdf.Translate2d(v2.Vec{X: r.R(-1, 1) * scale, Y: r.R(-1, 1) * scale}).Mul(sdf.Rotate2d(r.R(0, 6.28)))
+		switch i % 3 {
+		case 0:
+			run(c10Job{fmt.Sprintf("Union2D(c=Cache2D(%s), Transform2D(Cache2D(c)))", leaf.desc), sdf.Union2D(a, sdf.Transform2D(b, mv)), nil}, false)
+		case 1:
+			h := scale * r.R(0.3, 2)
+			m3 := sdf.Translate3d(v3.Vec{X: r.R(-1, 1) * scale, Y: r.R(-1, 1) * scale, Z: r.R(-1, 1) * scale})
+			run(c10Job{fmt.Sprintf("Union3D(Extrude3D(c=Cache2D(%s)), Transform3D(Extrude3D(Cache2D(c))))", leaf.desc), nil,
+				sdf.Union3D(sdf.Extrude3D(a, h), sdf.Transform3D(sdf.Extrude3D(b, h*r.R(0.5, 2)), m3))}, false)
+		default:
+			run(c10Job{fmt.Sprintf("Union2D(Cache2D(c=Cache2D(%s)), Transform2D(c), Transform2D(Cache2D(c)))", leaf.desc),
+				sdf.Union2D(b, sdf.Transform2D(a, mv), sdf.Transform2D(sdf.Cache2D(a), mv.Mul(mv))), nil}, false)
+		}
+	}
 	// long-lived memoising wrappers: one Cache2D that has already stored very many distinct points (a cached profile reused
 	// by several fine renders) and is then read back concurrently - old and new points, hits and misses mixed
 	fills := []int{70_000, 300_000, 1_200_000}
@@ -231,7 +256,19 @@ func c10Hammer(c *Ctx, j c10Job, nPts, reps int) {
 			if len(ts1) != len(ts2) {
 				c.Violate("", fmt.Sprintf("concurrent-render-differs %s: two parallel renders gave %d and %d triangles", j.desc, len(ts1), len(ts2)), map[string]any{"shape": j.desc})
 			}
-			c.Count("parallel_renders", 2)
+			// the same shape rendered by two renders at once (two parts of an assembly meshed in parallel): twice NumCPU
+			// workers evaluate it, at two resolutions
+			var ta, tb []*sdf.Triangle3
+			var wg sync.WaitGroup
+			wg.Add(2)
+			go func() { defer wg.Done(); ta = render.ToTriangles(s3, render.NewMarchingCubesUniform(14)) }()
+			go func() { defer wg.Done(); tb = render.ToTriangles(s3, render.NewMarchingCubesUniform(19)) }()
+			wg.Wait()
+			tb0 := render.ToTriangles(s3, render.NewMarchingCubesUniform(19))
+			if len(ta) != len(ts1) || len(tb) != len(tb0) {
+				c.Violate("", fmt.Sprintf("concurrent-render-differs %s: renders overlapping in time gave %d / %d triangles, the same renders alone %d / %d", j.desc, len(ta), len(tb), len(ts1), len(tb0)), map[string]any{"shape": j.desc})
+			}
+			c.Count("parallel_renders", 5)
 		}
 	}
 	if maxInflight > 1 {
